@@ -60,7 +60,7 @@ def run(ctx):
                     continue
                 ev = json.loads(lines[b["line"] - 1])
                 ctx.violation(b["check"], {"trace_line": b["line"], "event": {k: v for k, v in ev.items() if k != "board"}},
-                              {"kind": "trace", "trace": kept, "line": b["line"], "module": "BotTrace"})
+                              {"kind": "trace", "record_args": [str(a) for a in h["args"]], "trace": kept, "line": b["line"], "module": "BotTrace"})
         ctx.cov["states"] += r["distinct"]
         ctx.cov["transitions"] += r["generated"]
         if len(ctx.cov["samples"]) < 2:
